@@ -15,9 +15,17 @@ namespace {
 bool g_ok = false;
 template <class T, class S> void tryTo(const S& s) { try { auto v = Convert::To<T>(s); (void)v; g_ok = true; } catch (const std::exception&) { } }
 template <class T> bool same(const T& a, const T& b) { if constexpr (std::is_floating_point_v<T>) return memcmp(&a, &b, sizeof(T)) == 0 || (a != a && b != b) || (a == 0 && b == 0); else return a == b; }
+template <class T> struct is_tp : std::false_type {}; template <class C, class D> struct is_tp<time_point<C, D>> : std::true_type {};
+const char* g_excl = nullptr;
 template <class T, class S> void roundTrip(const S& s) {
 	T v; try { v = Convert::To<T>(s); } catch (const std::exception&) { return; }
 	g_ok = true; std::string txt; T w;
+	if constexpr (is_tp<T>::value) {   // the recorded findings of the chrono printer / parser are excluded by construction and counted (witnessed in C14 / C15)
+		using D = typename T::duration; using R = typename D::rep; const __int128 cnt = v.time_since_epoch().count();
+		const __int128 ticksPerDay = static_cast<__int128>(86400) * D::period::den / D::period::num;
+		if (cnt - static_cast<__int128>(std::numeric_limits<R>::min()) < (ticksPerDay > 0 ? ticksPerDay : 1)) { g_excl = "excluded:KF-27-first-day-of-the-range"; return; }
+		if (D::period::num == 86400 && cnt > static_cast<__int128>(std::numeric_limits<R>::max()) - 719468) { g_excl = "excluded:KF-33-last-1970-years-of-days"; return; }
+	}
 	try { txt = Convert::ToString(v); } catch (const std::exception&) { return; }   // e.g. a time point that is not printable (reported elsewhere: C14)
 	try { w = Convert::To<T>(txt); } catch (const std::exception&) { vfz::fail("a value accepted by Convert::To prints to text that Convert::To rejects"); }
 	if (!same(v, w)) vfz::fail("a value accepted by Convert::To does not survive printing and parsing again");
@@ -38,12 +46,12 @@ template <class S> void all(const S& s, uint8_t sel) {
 void vf_write_seeds(const std::string& dir) {
 	const char* texts[] = { "0", "-128", "255", "65535", "-2147483648", "18446744073709551615", "1.5", "-3.4028235e38", "1.7976931348623157e308", "true", "false", "Red", "Dark violet",
 		"2024-02-29T23:59:59.123456789Z", "1969-12-31T23:59:59Z", "2262-04-11T23:47:16.854775807Z", "1677-09-21T00:12:43Z", "P1DT2H3M4.5S", "-PT0.000000001S", "P106751DT23H47M16.854775807S", "PT1H", "P1W", "2024-01-01", "  42 ", "+7", "0x1F", "1e5", "nan", "inf", "-0",
-		"P9223372036854775807D", "-P9223372036854775808D", "PT16450570252850764905M", "PT9223372036854775807S", "-PT9223372036854775808S", "P106751991167300DT15H30M7S", "+292277026596-12-04T15:30:07Z", "-292277022657-01-27T08:29:52Z", "9223372036854775807", "-9223372036854775808", "1e400", "4.9e-324", "PT2562047788015215H", "-PT153722867280912930M", "P15250284452W", "12e+", "7E-", "1e", "1.", "12e", "1e+5", "0e", "1E+" };
+		"P9223372036854775807D", "-P9223372036854775808D", "PT16450570252850764905M", "PT9223372036854775807S", "-PT9223372036854775808S", "P106751991167300DT15H30M7S", "+292277026596-12-04T15:30:07Z", "-292277022657-01-27T08:29:52Z", "24297872682070010-04-04T00:00:00Z", "-9223372036854775807-01-27T08:29:52Z", "+1052197288658909-10-10T07:00:00Z", "9223372036854775807", "-9223372036854775808", "1e400", "4.9e-324", "PT2562047788015215H", "-PT153722867280912930M", "P15250284452W", "12e+", "7E-", "1e", "1.", "12e", "1e+5", "0e", "1E+" };
 	int n = 0; for (const char* t : texts) for (int sel = 0; sel < 34; sel += (n % 3) + 1) { std::string b; b.push_back(static_cast<char>(sel)); b.push_back(0); b += t; vfz::write_seed(dir, "seed" + std::to_string(n++), b); }
 	for (const char* t : { "12345", "2024-02-29T23:59:59Z", "PT5S" }) { for (int w = 1; w < 3; w++) { std::string b; b.push_back(static_cast<char>(n % 34)); b.push_back(static_cast<char>(w)); for (const char* p = t; *p; p++) { b.push_back(*p); for (int k = 1; k < (w == 1 ? 2 : 4); k++) b.push_back(0); } vfz::write_seed(dir, "wseed" + std::to_string(n++), b); } }
 }
 extern "C" int LLVMFuzzerTestOneInput(const uint8_t* data, size_t size) {
-	if (size < 2) return 0; const uint8_t sel = data[0], w = data[1] % 4; const uint8_t* p = data + 2; const size_t n = size - 2; g_ok = false; bool digit = false; for (size_t i = 0; i < n; i++) if (p[i] >= '0' && p[i] <= '9') digit = true;
+	if (size < 2) return 0; const uint8_t sel = data[0], w = data[1] % 4; const uint8_t* p = data + 2; const size_t n = size - 2; g_ok = false; g_excl = nullptr; bool digit = false; for (size_t i = 0; i < n; i++) if (p[i] >= '0' && p[i] <= '9') digit = true;
 	try {
 		// the text is also handed over as a view into an exact-size heap block (not NUL-terminated), so that a read one character past the end is an ASan report
 		if (w == 0) { std::string s(reinterpret_cast<const char*>(p), n); if ((sel & 0x80) || sel % 34 == 28) all(s, sel); /* long double: libstdc++ 12's from_chars calls strlen on its input (toolchain defect, not the library's), keep it NUL-terminated */ else { std::unique_ptr<char[]> b(new char[n ? n : 1]); memcpy(b.get(), p, n); all(std::string_view(b.get(), n), sel); } }
@@ -52,6 +60,6 @@ extern "C" int LLVMFuzzerTestOneInput(const uint8_t* data, size_t size) {
 		else { std::wstring s(n / 4, 0); memcpy(s.data(), p, n / 4 * 4); all(s, sel); }
 	} catch (const std::exception&) { } catch (...) { vfz::fail("something that is not derived from std::exception escapes Convert::To"); }
 	static const char* wl[] = { "char", "char16_t", "char32_t", "wchar_t" };
-	vfz::note(data, size, g_ok || digit, g_ok ? "converted" : wl[w]);
+	vfz::note(data, size, g_ok || digit, g_excl ? g_excl : g_ok ? "converted" : wl[w]);
 	return 0;
 }
